@@ -82,6 +82,23 @@ def d1_threading(ctx):
     ctx.check(okw, fc, dl[0], f"wf_flat={src(wa) if wa else None}", "chunk i receives the table rows whose samples fall in chunk i",
               "the table slice handed to chunk i is not wf_flat.iloc[slices[i]]", key="cbin->chunk:wf_flat")
     sls = [n for n in walk_function(fc.node) if isinstance(n, ast.Assign) and loc_name(n.targets[0]) == "slices"]
+    if sls:
+        # the sorted sample column may be converted once and held in a local: wf_samples = wf_flat['sample'].to_numpy()
+        import copy as _copy
+        duc0 = DefUse(fc.node)
+
+        class _Col(ast.NodeTransformer):
+            def visit_Name(self, node):
+                v = expand_name(duc0, node, sls[0])
+                if v is not node:
+                    w = v
+                    while isinstance(w, ast.Call) and call_name(w) in ("to_numpy", "asarray", "array", "astype") and (isinstance(w.func, ast.Attribute) or w.args):
+                        w = w.func.value if isinstance(w.func, ast.Attribute) and call_name(w) in ("to_numpy", "astype") else w.args[0]
+                    if isinstance(w, ast.Subscript) and loc_name(w.value) == "wf_flat" and const_value(w.slice) == (True, "sample"):
+                        return _copy.deepcopy(w)
+                return node
+        sls = [ast.copy_location(ast.Assign(targets=sls[0].targets, value=_Col().visit(_copy.deepcopy(sls[0].value))), sls[0])] + sls[1:]
+        ast.fix_missing_locations(sls[0])
     oks = bool(sls) and "searchsorted(wf_flat['sample'], [s0_arr[i], s1_arr[i]])" in src(sls[0].value)
     if sls and not oks and isinstance(sls[0].value, ast.ListComp) and len(sls[0].value.generators) == 1:
         # for s0, s1 in zip(s0_arr, s1_arr): searchsorted(samples, [s0, s1])
@@ -434,7 +451,10 @@ def d5_gather(ctx):
         okg = norm(v) in (norm(ast.parse(f"arr[:, sind[{src(ti)}]][cind[{src(ti)}], :]", mode="eval").body),
                           norm(ast.parse(f"arr[cind[{src(ti)}], :][:, sind[{src(ti)}]]", mode="eval").body),
                           norm(ast.parse(f"arr[cind[{src(ti)}][:, np.newaxis], sind[{src(ti)}]]", mode="eval").body),
-                          norm(ast.parse(f"arr[np.ix_(cind[{src(ti)}], sind[{src(ti)}])]", mode="eval").body))
+                          norm(ast.parse(f"arr[np.ix_(cind[{src(ti)}], sind[{src(ti)}])]", mode="eval").body),
+                          norm(ast.parse(f"arr[cind[:, :, np.newaxis][{src(ti)}], sind[{src(ti)}]]", mode="eval").body),
+                          norm(ast.parse(f"arr[cind[{src(ti)}, :, np.newaxis], sind[{src(ti)}]]", mode="eval").body),
+                          norm(ast.parse(f"arr[cind[{src(ti)}][:, None], sind[{src(ti)}]]", mode="eval").body))
     if g and not okg:
         # block form: wfs[R] = arr[cind[R][:, :, None], sind[R][:, None, :]]  - rows R of both index tables, broadcast (spike, channel, sample)
         def _blocked(e):
